@@ -19,88 +19,101 @@ TRUSTED_MACROS = {"arg": "clap's arg! macro: assertions about the literal argume
 # guard: ("dom", callee-regex, truth) = the site must be edge-dominated by that call's result being `truth`;
 #        ("callers-dom", callee-regex, truth) = every call site of the enclosing function must be.
 TABLE = [
-    # ---------------------------------------------------------------- front end (C12) --------------------------------
-    (r"^frontend::ast::NodeMarker::number\|unwrap\|Option::unwrap\|Option::map\(Option::and_then\(NodeMarker::value", "C12",
-     "a NodeMarker node is closed only in the arm of rule_postfix entered with current == NodeMarker (checked by SHAPE), so the token "
-     "child exists; its text matches `<[0-9]+` and contains '<'"),
-    (r"^frontend::ast::Predicate::is_true::\{closure#0\}\|index\|Index:str\|.* @ RangeFrom", "C12",
-     "text of a Predicate token (`\\?([0-9]+|t)`): first character is the ASCII '?', so [1..] is a boundary inside the text"),
-    (r"^<codespan_reporting::diagnostic::Diagnostic<\(\)> as frontend::diag::LanguageErrors>::(lowercase_token|uppercase_rule)\|unwrap\|Option::unwrap\|Chars::next\(str::chars\(param2\)\)$", "C12",
-     "every caller passes a name for which `name.starts_with(..)` just returned true, hence non-empty", ("callers-dom", r"str::starts_with$", True)),
-    (r"^frontend::lexer::check_string\|assert:overflow:Sub\|assert\|ovf\(SubWithOverflow\(Add\(Range\.start,Option\.0\.0\),const:1\)\)$", "C12",
-     "i is the char_indices offset of the character after a backslash, so i >= 1"),
-    (r"^frontend::lexer::check_string\|panic\|panicking::panic\|const:internal error: entered unreachable", "C12",
-     "a Str token ends with an unescaped quote (parse_string consumes the character after every backslash), so a backslash is never last"),
-    (r"^frontend::lexer::tokenize\|index\|Index:str\|Lexer::source\(Logos::lexer\(param1\)\) @ Range::clone\(Option\.0\.1\)$", "C12",
-     "span produced by logos for this very source: in range and on character boundaries"),
-    (r"^frontend::sema::GeneralCheck::check_regex\|index\|Index:str\|Option\.0\.0 @ RangeFrom", "C12",
-     "text of a Predicate/Action/Assertion/NodeRename token: the token regexes start with the ASCII characters ? # ! @"),
-    (r"^frontend::sema::RecursiveBranches::new\|assert:overflow:Sub\|assert\|ovf\(SubWithOverflow\(Mul\(Vec::len\(param1\),const:2\),Mul\(Option\.0\.0,const:2\)\)\)$", "C12",
-     "i < branches.len() (enumerate), so 2*len - 2*i >= 2"),
-    (r"^compile\|unwrap\|Result::unwrap\|term::emit_to_write_style", "C12",
-     "fails on an I/O error of stderr (assumed writable) or on a label span outside the text / off a character boundary, which SPAN excludes"),
-    (r"^build\|unwrap\|Result::unwrap\|env::var\(const:OUT_DIR\)$", "C12", "build-script entry point: cargo always sets OUT_DIR"),
-    # ---------------------------------------------------------------- skeleton instance (C12, C03) --------------------
-    (r"^@::Cst::match_token::\{closure#0\}\|index\|Index:str\|.*source @ Range::clone\(param\d\)$", "C12,C03", "span of an existing token node (lexer span)"),
-    (r"^@::Cst::span_text\|index\|Index:Vec\|CstData\.spans @ ::from\(param2\)$", "C12,C03",
-     "span index of a token node = token_count at its push < tokens.len() = spans.len() (S1 and one span per token); the phantom end token of known finding P1 is the exception"),
-    (r"^@::Cst::span_text\|index\|Index:str\|Cst\.source @ Range::clone\(Vec::index\(CstData\.spans\)\)$", "C12,C03", "lexer span of this source"),
-    (r"^@::CstData::children\|index\|Index:Vec\|CstData\.nodes @ (NodeRef\.0|Range::Range\{\.\.\})$", "C12,C03",
-     "NodeRef of an existing node (NODEREF: built only by the child iterator, ROOT, or from a mark); the range ends at the node's stored extent"),
-    (r"^@::CstData::close_root\|assert:overflow:Sub\|assert\|", "C12,C03", "the root mark is the index of a pushed node, so nodes.len() - 1 >= mark"),
-    (r"^@::CstData::close_root\|index\|Index:Vec\|CstData\.nodes @ MarkOpened\.0$", "C12,C03", "MarkOpened is only built by open/open_before from the index of the node they create (S4)"),
-    (r"^@::CstData::close\|assert:overflow:Sub\|assert\|", "C12,C03",
-     "non_skip_len >= 1 after the root open that dominates every close; the two differences are each computed on the side of a comparison that makes them non-negative"),
-    (r"^@::CstData::close\|index\|Index:Vec\|CstData\.nodes @ MarkOpened\.0$", "C12,C03", "MarkOpened is only built by open/open_before from the index of the node they create (S4)"),
-    (r"^@::CstData::(get|match_rule|match_token|span)\|index\|Index:Vec\|CstData\.nodes @ NodeRef\.0$", "C12,C03", "NodeRef of an existing node (NODEREF)"),
-    (r"^@::CstData::match_token\|index\|Index:Vec\|CstData\.spans @ ::from\(Node\.1\)$", "C12,C03", "span index of a token node (see Cst::span_text)"),
-    (r"^@::CstData::open_before\|vecop\|Vec::insert\|CstData\.nodes$", "C12,C03", "mark index <= nodes.len(): marks are indices of existing nodes or the current length"),
-    (r"^@::CstData::span::\{closure#0\}\|index\|Index:Vec\|CstData\.spans @ param\d$", "C12,C03", "span index taken from a token node"),
-    (r"^@::CstData::span\|index\|Index:Vec\|CstData\.nodes @ (RangeInclusive::new\(Add\(NodeRef\.0,const:1\)\)|RangeTo::RangeTo\{\.\.\})$", "C12,C03",
-     "ranges bounded by the node's own index and its stored extent, both inside the vector"),
-    (r"^@::CstData::span\|index\|Index:Vec\|CstData\.spans @ (::from\(Node\.1\)|Option\.0)$", "C12,C03", "span index taken from a token node"),
-    (r"^@::Parser::parse_rule\|index\|Index:Vec\|Parser\.tokens @ Parser\.pos$", "C12,C03", "inside the loop guarded by pos < tokens.len()"),
-    # ---------------------------------------------------------------- formatter (C17) ---------------------------------
-    (r"^backend::format::gen_alt\|index\|Index:Vec\|Iterator::collect\(.*\) @ const:[01]$", "C17", "dominated by regexes.len() > 1",
-     ("dom", r"Vec::len$|Vec<T, A>::len$", "gt1")),
-    (r"^backend::format::gen_alt\|index\|Index:str\|Cst::source\(param1\) @ Range::Range\{\.\.\}$", "C17",
-     "end of the first operand's span .. start of the second's: sibling spans are ordered token boundaries of this source"),
-    (r"^backend::format::(gen_file|gen_node)\|assert:overflow:Sub\|assert\|ovf\(SubWithOverflow\(str::len\(Cst::span_text\(param1\)\),const:1\)\)$", "C17",
-     "text of a LineComment/DocComment token: the token regex `//[^\\n]*\\n` makes it non-empty"),
-    (r"^backend::format::(gen_file|gen_node)\|index\|Index:str\|Cst::span_text\(param1\) @ RangeTo", "C17",
-     "LineComment/DocComment text ends with the one-byte '\\n', so len-1 is a character boundary"),
-    (r"^backend::format::gen_node\|panic\|panicking::panic\|const:internal error: entered unreachable", "C17",
-     "arms for Rule::Decl, Rule::Postfix and Rule::Regex: the self-hosted parser never closes a node of these kinds (checked by SHAPE-KINDS)"),
-    (r"^backend::format::space_before_comment\|index\|Index:str\|Cst::source\(param1\) @ RangeTo", "C17", "start of a token span of this source"),
-    # ---------------------------------------------------------------- language server (C20) ---------------------------
-    (r"^ide::completion::add_reference_items\|unwrap\|Option::unwrap\|RuleDecl::name\(Option\.0\)$", "C20",
-     "RuleDecl::name: rule_rule_decl is entered only with current == Id and consumes it first (checked by SHAPE); the TokenDecl twin is not total and is tested"),
-    (r"^ide::hover::hover\|unwrap\|Option::unwrap\|str::strip_prefix\(", "C20", "text of a DocComment token (`///[^\\n]*\\n`) starts with ///"),
-    (r"^ide::lookup::lookup_parser_impl_definition::\{closure#1\}\|assert:overflow:Sub\|assert\|ovf\(SubWithOverflow\(Location\.(column|line)_number,const:1\)\)$", "C20",
-     "codespan Location is one-based"),
-    (r"^ide::Cache::\w+\|panic\|panicking::panic\|const:assertion failed: !analyzer\.handle\.is_fi", "C20",
-     "holds iff the analysis thread never exits on its own: it returns only on Cancel (RR) and has no unaudited panic site (this table)"),
-    (r"^ide::Cache::\w+\|unwrap\|Result::unwrap\|Sender::send\(Analyzer\.req_tx\)$", "C20", "fails only if the analysis thread has exited; see the assertion above"),
-    (r"^ide::Cache::invalidate\|(unwrap\|Result::unwrap\|JoinHandle::join\(Analyzer\.handle\)|vecop\|JoinHandle::join\|Analyzer\.handle)$", "C20",
-     "join fails only if the analysis thread panicked; see the assertion above"),
-    (r"^ide::analyze\|unwrap\|Result::unwrap\|Sender::send\(param4\)$", "C20",
-     "fails only if the Cache dropped the receiver, which happens in invalidate after Cancel was sent and the thread joined"),
-    (r"^ide::analyze\|unwrap\|(Result::unwrap\|Url::to_file_path\(param1\)|Option::unwrap\|Path::(parent|to_str)\()", "C20",
-     "ASSUMPTION: documents are identified by file: URIs with a UTF-8 path below the root (stated in the evidence)"),
-    (r"^ide::compat::position_to_offset\|index\|Index:str\|SimpleFile::source\(param1\) @ Range::clone\(Result\.0\)$", "C20",
-     "line range returned by the same file's line_range: line starts follow '\\n' bytes, in range and on boundaries"),
-    (r"^ide::compat::span_to_range\|unwrap\|Result::unwrap\|codespan_lsp::byte_span_to_range\(param1\)$", "C20",
-     "fails for a span outside the text or off a character boundary; every span reaching it is a lexer/tree span (SPAN)"),
-    (r"^main_loop\|panic\|rt::panic_fmt\|", "C20", "ASSUMPTION: well-formed protocol messages (JsonError = parameters that do not deserialize for a known method)"),
-    (r"^main_loop\|unwrap\|Result::unwrap\|serde_json::from_value\(param2\)$", "C20", "ASSUMPTION: well-formed initialize parameters"),
-    (r"^(main_loop|main|<lsp_types::notification::Did(Open|Change)TextDocument as NotificationHandler>::handle)\|unwrap\|Result::unwrap\|serde_json::to_value\(", "C20",
-     "serialising lsp_types values (string-keyed maps only) cannot fail"),
-    (r"^main\|unwrap\|Option::unwrap\|ArgMatches::get_one\(", "C19", "INPUT is a required argument and output has a default value (clap guarantees presence)"),
+    ('^frontend::ast::NodeMarker::number\\|unwrap\\|Option::unwrap\\|Option::map\\(Option::and_then\\(NodeMarker::value', 'C12',
+     "a NodeMarker node is closed only in the arm of rule_postfix entered with current == NodeMarker (checked by SHAPE), so the token child exists; its text matches `<[0-9]+` and contains '<'", 1),
+    ('^frontend::ast::Predicate::is_true::\\{closure#0\\}\\|index\\|Index:str\\|.* @ RangeFrom', 'C12',
+     "text of a Predicate token (`\\?([0-9]+|t)`): first character is the ASCII '?', so [1..] is a boundary inside the text", 1),
+    ('^<codespan_reporting::diagnostic::Diagnostic<\\(\\)> as frontend::diag::LanguageErrors>::(lowercase_token|uppercase_rule)\\|unwrap\\|Option::unwrap\\|Chars::next\\(str::chars\\(param2\\)\\)$', 'C12',
+     'every caller passes a name for which `name.starts_with(..)` just returned true, hence non-empty', 2, ('callers-dom', 'str::starts_with$', True)),
+    ('^frontend::lexer::check_string\\|assert:overflow:Sub\\|assert\\|ovf\\(SubWithOverflow\\(Add\\(Range\\.start,Option\\.0\\.0\\),const:1\\)\\)$', 'C12',
+     'i is the char_indices offset of the character after a backslash, so i >= 1', 1),
+    ('^frontend::lexer::check_string\\|panic\\|panicking::panic\\|const:internal error: entered unreachable', 'C12',
+     'a Str token ends with an unescaped quote (parse_string consumes the character after every backslash), so a backslash is never last', 1),
+    ('^frontend::lexer::tokenize\\|index\\|Index:str\\|Lexer::source\\(Logos::lexer\\(param1\\)\\) @ Range::clone\\(Option\\.0\\.1\\)$', 'C12',
+     'span produced by logos for this very source: in range and on character boundaries', 1),
+    ('^frontend::sema::GeneralCheck::check_regex\\|index\\|Index:str\\|Option\\.0\\.0 @ RangeFrom', 'C12',
+     'text of a Predicate/Action/Assertion/NodeRename token: the token regexes start with the ASCII characters ? # ! @', 4),
+    ('^frontend::sema::RecursiveBranches::new\\|assert:overflow:Sub\\|assert\\|ovf\\(SubWithOverflow\\(Mul\\(Vec::len\\(param1\\),const:2\\),Mul\\(Option\\.0\\.0,const:2\\)\\)\\)$', 'C12',
+     'i < branches.len() (enumerate), so 2*len - 2*i >= 2', 2),
+    ('^compile\\|unwrap\\|Result::unwrap\\|term::emit_to_write_style', 'C12',
+     'fails on an I/O error of stderr (assumed writable) or on a label span outside the text / off a character boundary, which SPAN excludes', 1),
+    ('^build\\|unwrap\\|Result::unwrap\\|env::var\\(const:OUT_DIR\\)$', 'C12',
+     'build-script entry point: cargo always sets OUT_DIR', 1),
+    ('^@::Cst::match_token::\\{closure#0\\}\\|index\\|Index:str\\|.*source @ Range::clone\\(param\\d\\)$', 'C12,C03',
+     'span of an existing token node (lexer span)', 1),
+    ('^@::Cst::span_text\\|index\\|Index:Vec\\|CstData\\.spans @ ::from\\(param2\\)$', 'C12,C03',
+     'span index of a token node = token_count at its push < tokens.len() = spans.len() (S1 and one span per token); the phantom end token of known finding P1 is the exception', 1),
+    ('^@::Cst::span_text\\|index\\|Index:str\\|Cst\\.source @ Range::clone\\(Vec::index\\(CstData\\.spans\\)\\)$', 'C12,C03',
+     'lexer span of this source', 1),
+    ('^@::CstData::children\\|index\\|Index:Vec\\|CstData\\.nodes @ (NodeRef\\.0|Range::Range\\{\\.\\.\\})$', 'C12,C03',
+     "NodeRef of an existing node (NODEREF: built only by the child iterator, ROOT, or from a mark); the range ends at the node's stored extent", 2),
+    ('^@::CstData::close_root\\|assert:overflow:Sub\\|assert\\|', 'C12,C03',
+     'the root mark is the index of a pushed node, so nodes.len() - 1 >= mark', 2),
+    ('^@::CstData::close_root\\|index\\|Index:Vec\\|CstData\\.nodes @ MarkOpened\\.0$', 'C12,C03',
+     'MarkOpened is only built by open/open_before from the index of the node they create (S4)', 1),
+    ('^@::CstData::close\\|assert:overflow:Sub\\|assert\\|', 'C12,C03',
+     'non_skip_len >= 1 after the root open that dominates every close; the two differences are each computed on the side of a comparison that makes them non-negative', 3),
+    ('^@::CstData::close\\|index\\|Index:Vec\\|CstData\\.nodes @ MarkOpened\\.0$', 'C12,C03',
+     'MarkOpened is only built by open/open_before from the index of the node they create (S4)', 1),
+    ('^@::CstData::(get|match_rule|match_token|span)\\|index\\|Index:Vec\\|CstData\\.nodes @ NodeRef\\.0$', 'C12,C03',
+     'NodeRef of an existing node (NODEREF)', 4),
+    ('^@::CstData::match_token\\|index\\|Index:Vec\\|CstData\\.spans @ ::from\\(Node\\.1\\)$', 'C12,C03',
+     'span index of a token node (see Cst::span_text)', 1),
+    ('^@::CstData::open_before\\|vecop\\|Vec::insert\\|CstData\\.nodes$', 'C12,C03',
+     'mark index <= nodes.len(): marks are indices of existing nodes or the current length', 1),
+    ('^@::CstData::span::\\{closure#0\\}\\|index\\|Index:Vec\\|CstData\\.spans @ param\\d$', 'C12,C03',
+     'span index taken from a token node', 1),
+    ('^@::CstData::span\\|index\\|Index:Vec\\|CstData\\.nodes @ (RangeInclusive::new\\(Add\\(NodeRef\\.0,const:1\\)\\)|RangeTo::RangeTo\\{\\.\\.\\})$', 'C12,C03',
+     "ranges bounded by the node's own index and its stored extent, both inside the vector", 3),
+    ('^@::CstData::span\\|index\\|Index:Vec\\|CstData\\.spans @ (::from\\(Node\\.1\\)|Option\\.0)$', 'C12,C03',
+     'span index taken from a token node', 3),
+    ('^@::Parser::parse_rule\\|index\\|Index:Vec\\|Parser\\.tokens @ Parser\\.pos$', 'C12,C03',
+     'inside the loop guarded by pos < tokens.len()', 1),
+    ('^backend::format::gen_alt\\|index\\|Index:Vec\\|Iterator::collect\\(.*\\) @ const:[01]$', 'C17',
+     'dominated by regexes.len() > 1', 2, ('dom', 'Vec::len$|Vec<T, A>::len$', 'gt1')),
+    ('^backend::format::gen_alt\\|index\\|Index:str\\|Cst::source\\(param1\\) @ Range::Range\\{\\.\\.\\}$', 'C17',
+     "end of the first operand's span .. start of the second's: sibling spans are ordered token boundaries of this source", 1),
+    ('^backend::format::(gen_file|gen_node)\\|assert:overflow:Sub\\|assert\\|ovf\\(SubWithOverflow\\(str::len\\(Cst::span_text\\(param1\\)\\),const:1\\)\\)$', 'C17',
+     'text of a LineComment/DocComment token: the token regex `//[^\\n]*\\n` makes it non-empty', 2),
+    ('^backend::format::(gen_file|gen_node)\\|index\\|Index:str\\|Cst::span_text\\(param1\\) @ RangeTo', 'C17',
+     "LineComment/DocComment text ends with the one-byte '\\n', so len-1 is a character boundary", 2),
+    ('^backend::format::gen_node\\|panic\\|panicking::panic\\|const:internal error: entered unreachable', 'C17',
+     'arms for Rule::Decl, Rule::Postfix and Rule::Regex: the self-hosted parser never closes a node of these kinds (checked by SHAPE-KINDS)', 3),
+    ('^backend::format::space_before_comment\\|index\\|Index:str\\|Cst::source\\(param1\\) @ RangeTo', 'C17',
+     'start of a token span of this source', 1),
+    ('^ide::completion::add_reference_items\\|unwrap\\|Option::unwrap\\|RuleDecl::name\\(Option\\.0\\)$', 'C20',
+     'RuleDecl::name: rule_rule_decl is entered only with current == Id and consumes it first (checked by SHAPE); the TokenDecl twin is not total and is tested', 1),
+    ('^ide::hover::hover\\|unwrap\\|Option::unwrap\\|str::strip_prefix\\(', 'C20',
+     'text of a DocComment token (`///[^\\n]*\\n`) starts with ///', 1),
+    ('^ide::lookup::lookup_parser_impl_definition::\\{closure#1\\}\\|assert:overflow:Sub\\|assert\\|ovf\\(SubWithOverflow\\(Location\\.(column|line)_number,const:1\\)\\)$', 'C20',
+     'codespan Location is one-based', 2),
+    ('^ide::Cache::\\w+\\|panic\\|panicking::panic\\|const:assertion failed: !analyzer\\.handle\\.is_fi', 'C20',
+     'holds iff the analysis thread never exits on its own: it returns only on Cancel (RR) and has no unaudited panic site (this table)', 6),
+    ('^ide::Cache::\\w+\\|unwrap\\|Result::unwrap\\|Sender::send\\(Analyzer\\.req_tx\\)$', 'C20',
+     'fails only if the analysis thread has exited; see the assertion above', 7),
+    ('^ide::Cache::invalidate\\|(unwrap\\|Result::unwrap\\|JoinHandle::join\\(Analyzer\\.handle\\)|vecop\\|JoinHandle::join\\|Analyzer\\.handle)$', 'C20',
+     'join fails only if the analysis thread panicked; see the assertion above', 2),
+    ('^ide::analyze\\|unwrap\\|Result::unwrap\\|Sender::send\\(param4\\)$', 'C20',
+     'fails only if the Cache dropped the receiver, which happens in invalidate after Cancel was sent and the thread joined', 6),
+    ('^ide::analyze\\|unwrap\\|(Result::unwrap\\|Url::to_file_path\\(param1\\)|Option::unwrap\\|Path::(parent|to_str)\\()', 'C20',
+     'ASSUMPTION: documents are identified by file: URIs with a UTF-8 path below the root (stated in the evidence)', 3),
+    ('^ide::compat::position_to_offset\\|index\\|Index:str\\|SimpleFile::source\\(param1\\) @ Range::clone\\(Result\\.0\\)$', 'C20',
+     "line range returned by the same file's line_range: line starts follow '\\n' bytes, in range and on boundaries", 1),
+    ('^ide::compat::span_to_range\\|unwrap\\|Result::unwrap\\|codespan_lsp::byte_span_to_range\\(param1\\)$', 'C20',
+     'fails for a span outside the text or off a character boundary; every span reaching it is a lexer/tree span (SPAN)', 1),
+    ('^main_loop\\|panic\\|rt::panic_fmt\\|', 'C20',
+     'ASSUMPTION: well-formed protocol messages (JsonError = parameters that do not deserialize for a known method)', 8),
+    ('^main_loop\\|unwrap\\|Result::unwrap\\|serde_json::from_value\\(param2\\)$', 'C20',
+     'ASSUMPTION: well-formed initialize parameters', 1),
+    ('^(main_loop|main|<lsp_types::notification::Did(Open|Change)TextDocument as NotificationHandler>::handle)\\|unwrap\\|Result::unwrap\\|serde_json::to_value\\(', 'C20',
+     'serialising lsp_types values (string-keyed maps only) cannot fail', 8),
+    ('^main\\|unwrap\\|Option::unwrap\\|ArgMatches::get_one\\(', 'C19',
+     'INPUT is a required argument and output has a default value (clap guarantees presence)', 2),
 ]
 
-# number of sites each table entry matched on the audited tree (an entry never silently covers more sites than were read)
-MAXCOUNT = [1, 1, 2, 1, 1, 1, 4, 2, 1, 1, 1, 1, 1, 2, 2, 1, 3, 1, 4, 1, 1, 1, 3, 3, 1, 2, 1, 2, 2, 3, 1, 1, 1, 2, 6, 7, 2, 6, 3, 1, 1, 8, 1, 8, 2]
-
+# each entry: (regex over the position-free site key, properties served, invariant that makes the site safe, number of sites the entry was
+# audited for [, dominance guard]); an entry never silently covers more sites than were read
+MAXCOUNT = [e[3] for e in TABLE]
 assert len(MAXCOUNT) == len(TABLE)
 
 SKELETON_PREFIX = re.compile(r"^(?:[\w:]*?::)?parser::(Cst|CstData|CstChildren|Parser|NodeRef|Node|Rule)\b")
@@ -201,7 +214,7 @@ def evaluate(ctx, rep, props, rid="PANIC"):
                   "thread WITHOUT passing an error gate is either generically justified or an audited table entry with its invariant "
                   "(and, where stated, a dominance guard that is re-checked); any other site is a new panic path on arbitrary input")
     z = zones_of(ctx)
-    table = [(re.compile(rx), set(p.split(",")), reason, (g[0] if g else None)) for rx, p, reason, *g in TABLE]
+    table = [(re.compile(rx), set(p.split(",")), reason, (g[0] if g else None)) for rx, p, reason, _n, *g in TABLE]
     used = Counter()
     nsites = 0
     nfun = 0
